@@ -125,6 +125,42 @@ let c10_call fn a =
       e (Printf.sprintf "inc(%s,%s)=%s is not the next counter" (show_vc c) (atom x) (show_sx d)) (spec_inc_ok c (n_sx x) (dot_sx d))
   | _ -> ()
 
+(* ---- C14: identifier order and density, on the implementation's results *)
+let last_cmps : (string * string * comparison) list ref = ref []
+let c14_call fn a =
+  let p = "C14" in
+  let lt x y = idcmp ncompare x y = Lt in
+  match fn, a with
+  | "cmp", [x; y; r] ->
+      let r' = (match ord_sx r with Some c -> c | None -> bad "total order returned none") in
+      let xs = show_sx x and ys = show_sx y in
+      expect p (fun () -> "cmp(x,x) is not Equal for x=" ^ xs) (xs <> ys || r' = Eq);
+      expect p (fun () -> "cmp says Equal for different identifiers " ^ xs ^ " " ^ ys) (r' <> Eq || ident_sx n_sx x = ident_sx n_sx y);
+      (* antisymmetry / transitivity over the recent comparisons *)
+      List.iter (fun (a', b', c) ->
+        if a' = ys && b' = xs then
+          expect p (fun () -> "cmp is not antisymmetric on " ^ xs ^ " " ^ ys) (c = (match r' with Lt -> Gt | Gt -> Lt | Eq -> Eq));
+        if b' = xs && c = r' && r' <> Eq then
+          List.iter (fun (a2, b2, c2) ->
+            if a2 = a' && b2 = ys then
+              expect p (fun () -> "cmp is not transitive on " ^ a' ^ " " ^ xs ^ " " ^ ys) (c2 = r')) !last_cmps) !last_cmps;
+      last_cmps := (xs, ys, r') :: (match !last_cmps with a :: b :: c :: d :: _ -> [a; b; c; d] | l -> l)
+  | "between", [lo; hi; m; r] ->
+      let lo = opt_sx (ident_sx n_sx) lo and hi = opt_sx (ident_sx n_sx) hi and r = ident_sx n_sx r in
+      let m = n_sx m in
+      (match lo, hi with
+       | Some l, Some h when l <> h ->
+           let l, h = if lt l h then l, h else h, l in
+           expect p (fun () -> Printf.sprintf "between(%s,%s,%s)=%s is not strictly between" (show_ident show_n l) (show_ident show_n h) (show_n m) (show_ident show_n r))
+             (lt l r && lt r h);
+           expect p (fun () -> "between does not end with the marker") (idvalue r = Some m)
+       | Some l, None when l <> [] ->
+           expect p (fun () -> Printf.sprintf "between(%s,None)=%s is not beyond the bound" (show_ident show_n l) (show_ident show_n r)) (lt l r)
+       | None, Some h when h <> [] ->
+           expect p (fun () -> Printf.sprintf "between(None,%s)=%s is not below the bound" (show_ident show_n h) (show_ident show_n r)) (lt r h)
+       | _ -> ())
+  | _ -> ()
+
 let on_call (case : string) (cmd : string) (f : string) (a : sx list) =
   cur := (case, cmd);
   let pre_, fn = match String.index_opt f '.' with
@@ -133,6 +169,7 @@ let on_call (case : string) (cmd : string) (f : string) (a : sx list) =
   try
     (match pre_ with
      | "vclock" -> c10_call fn a
+     | "ident" -> c14_call fn a
      | _ -> ())
   with Bad m -> report "DRIVER" ("monitor error: " ^ m)
 
@@ -164,6 +201,14 @@ let spec_check (know : int list) (s : sx) =
         (lwwspec { lww_val = N0; lww_marker = N0 } (history_of lww_sx) k) (lww_sx s)
   | "glist" -> cmp "C12" show_glist (=) (glspec (history_of glop_sx) k) (glist_sx s)
   | "list" -> cmp "C12" show_clist clist_eqb (lspec (history_of lop_sx) k) (clist_sx s)
+  | "merkle" ->
+      (* the received node set of this replica: the nodes of the ops it knows *)
+      let node_of o = match o with
+        | L [A "N"; nd; h] -> let n = mnode_sx nd in register_node h n; n
+        | x -> bad "merkle op %s" (show_sx x) in
+      let nodes = List.filter_map (fun (i, (_, o, _)) -> if List.mem i know then Some (node_of o) else None)
+                    (List.mapi (fun i x -> (i, x)) (List.rev !hist)) in
+      cmp "C15" show_merkle merkle_eqb (merkle_spec model_hash nodes) (merkle_sx s)
   | _ -> ()
 
 let canon_props () =
@@ -207,6 +252,21 @@ let on_event (case : string) (cmd : string) (x : sx) =
           (* structural equality of the two results belongs to C20 *)
           expect "C20" (fun () -> Printf.sprintf "%s: equal knowledge but the states are not ==: %s vs %s" kind (cut a) (cut b))
             (same = "true" || state_eq !ty a b)
+        end
+    | L [A "idx"; A kind; before; ix; x; after] ->
+        (* C13: local edits land at the requested index (Vec model) *)
+        if before <> A "panic" && after <> A "panic" then begin
+          let b = nlist_sx before and a = nlist_sx after in
+          let i = int_sx ix in
+          let expected = match kind with
+            | "insert" -> vec_insert_at (nat_of_int (min i (List.length b))) (n_sx x) b
+            | "delete" -> vec_remove_at (nat_of_int i) b
+            | _ -> b in
+          let show l = String.concat "," (List.map show_n l) in
+          expect "C13" (fun () -> Printf.sprintf "%s at index %d of [%s] gave [%s], the sequential model gives [%s]" kind i (show b) (show a) (show expected))
+            (expected = a);
+          if kind = "delete_none" then
+            expect "C13" (fun () -> "delete_index returned None for an index inside the list") (i >= List.length b)
         end
     | L [A "endcase"] -> if !case_nontrivial then stat "nontrivial_cases"
     | _ -> ()
